@@ -147,11 +147,44 @@ let early_step cs os =
         bad := (Printf.sprintf "BAD\tside=impl\tclause=ok_C09: the puller returned (its decoder was done early), %s" (if Svs.is_err r then "the prefix it read is not the stream's" else Printf.sprintf "but next on stream id %d is not an error" (i + 1))) :: !bad) probes;
     Stdlib.List.rev !bad
 
+(* rel=1: the stream of a high-level puller is released (request-form cancel from a second connection,
+   acknowledged) while its producer waits at a gate after g bytes; at least two chunks of the stream do
+   not exist before the acknowledgement, so the puller has to ask for a `next` after the release.
+   Property text: "pulling past the end or after release is an error" and "Exactly one pulled chunk,
+   the final one, carries the end marker": a released stream never yields a clean end, so the puller
+   must fail - it must not return the prefix it has as a complete stream.  Judged by the extracted
+   oracle: the second connection's own `next` takes the place of the after-cancel response of the
+   ordinary case; for the puller's result the ordinary case whose stream breaks off after the g bytes
+   (c_fail = Some g) stands in - of it ok_C09 asks exactly that the puller reports an error. *)
+let rel_step cs os =
+  let f = fields cs and o = fields os in
+  match get_opt o "crash" with
+  | Some c -> ["BAD\tside=impl\tclause=crash:" ^ c]
+  | None ->
+    let data = bytes_of_hex (get f "data") in
+    let c = case_of f ~data ~cj:(n_of_int 0) in
+    if not (Svs.c09_wf c) then failwith "rel: case not wf";
+    let m = Svs.model_C09 c in
+    let cf = { c with Svs.c_fail = Some (n_of_hex (get f "g")) } in
+    if not (Svs.c09_wf cf) then failwith "rel: stand-in case not wf";
+    let mf = Svs.model_C09 cf in
+    let bad = ref [] in
+    let ac = parse_resp (get o "ac") in
+    if not (Svs.ok_C09 c { m with Svs.o_after_cancel = ac }) then
+      bad := "BAD\tside=impl\tclause=ok_C09: next (second connection) after the acknowledged release is not an error" :: !bad;
+    (match (try Some (parse_hl (get o "vec")) with Timeout -> None) with
+     | None -> bad := "BAD\tside=impl\tclause=crash:puller-timeout" :: !bad
+     | Some h ->
+       if not (Svs.ok_C09 cf { mf with Svs.o_vec = h }) then
+         bad := (Printf.sprintf "BAD\tside=impl\tclause=ok_C09: the stream was released in mid-pull (after %d of %d bytes), the puller returned %s instead of an error" (int_of_n (n_of_hex (get f "g"))) (Stdlib.List.length data) (trunc (get o "vec"))) :: !bad);
+    Stdlib.List.rev !bad
+
 let step _ cs os =
   if get_opt (fields cs) "dup" = Some "1" then dup_step cs os else
   if get_opt (fields cs) "conc" <> None then conc_step cs os else
   if get_opt (fields cs) "park" = Some "1" then park_step cs os else
   if get_opt (fields cs) "early" <> None then early_step cs os else
+  if get_opt (fields cs) "rel" = Some "1" then rel_step cs os else
   let f = fields cs and o = fields os in
   let c = { Svs.c_data = bytes_of_hex (get f "data"); c_n = n_of_hex (get f "n"); c_depth = n_of_hex (get f "d");
             c_writes = nlist (get f "w"); c_fail = optn (get f "f"); c_zstd = (get f "z" = "1");
